@@ -113,7 +113,7 @@ def cases(rng, tier):
     yield _inp("bzr", [("f", "f")], [], [], [], [".bzr/checkout"], True)
     yield _inp("bzr", [("f", "f")], [], [], [], ["f", "nope"], True)
     yield _inp("git", [("f", "f")], [], [], [], ["nope", "f"], False)
-    n = 600 if tier == "quick" else 9000
+    n = 600 if tier == "quick" else 5000
     for _ in range(n):
         fmt = "bzr" if rng.random() < 0.6 else "git"
         lay = _random_layout(rng, fmt)
